@@ -905,7 +905,8 @@ def r5_transform(ctx):
         ctx.ob("R5.align-unit", TRF, f.name, f"norm_vector({v})", n is not None and cross is not None and n.id in dom[cross.id],
                "the formula holds for unit direction vectors only", f.lineno)
         cp = d.get(v, [])
-        ctx.ob("R5.align-copy", TRF, f.name, f"{v} = {v}.copy()", any(ast.unparse(x) == f"{v}.copy()" for x in cp),
+        cpn = [x for k, x in nodes.items() if k == f"{v} = {v}.copy()"]
+        ctx.ob("R5.align-copy", TRF, f.name, f"{v} = {v}.copy()", bool(cpn) and n is not None and cpn[0].id in dom[n.id],
                "the caller's direction vector is not normalised in place", f.lineno)
     pairing(ctx, f, cfg, "positions -= origin_position", None, "origin_position is not None", rot, "R5.origin-pairing")
     pairing(ctx, f, cfg, None, "positions += target_position", "target_position is not None", rot, "R5.target-pairing")
@@ -1041,6 +1042,7 @@ MUTANTS = [
     Mutant("unitcell-matrix-columns", BOX, "[[a_x, 0, 0], [b_x, b_y, 0], [c_x, c_y, c_z]]", "[[a_x, b_x, c_x], [0, b_y, c_y], [0, 0, c_z]]", "R4.unitcell-matrix"),
     Mutant("unitcell-return-order", BOX, "    return len_a, len_b, len_c, alpha, beta, gamma", "    return len_a, len_b, len_c, gamma, beta, alpha", "R4.unitcell-order"),
     Mutant("volume-signed", BOX, "return np.abs(linalg.det(box))", "return linalg.det(box)", "R4.volume"),
+    Mutant("align-origin-copied-after-normalising", TRF, "    origin_direction = origin_direction.copy()\n    norm_vector(origin_direction)\n", "    norm_vector(origin_direction)\n    origin_direction = origin_direction.copy()\n", "R5.align-copy"),
     Mutant("align-origin-not-copied", TRF, "    origin_direction = origin_direction.copy()\n", "", "R5.align-copy"),
     Mutant("align-rodrigues-denominator", TRF, "(v_c @ v_c) / (1 + cos_a)", "(v_c @ v_c) / (1 - cos_a)", "R5.align-rodrigues"),
     Mutant("align-cos-self", TRF, "cos_a = vector_dot(origin_direction, target_direction)", "cos_a = vector_dot(origin_direction, origin_direction)", "R5.align-rodrigues"),
